@@ -132,7 +132,7 @@ impl Shared {
     /// orchestrator: wait until the thread is parked, idle, nested or gone
     pub fn settle(&self, id: usize) -> (St, Option<String>) {
         let mut g = self.m.lock().unwrap();
-        let deadline = std::time::Instant::now() + std::time::Duration::from_secs(6);
+        let deadline = std::time::Instant::now() + std::time::Duration::from_secs(15);
         loop {
             let s = g.get_mut(&id).expect("slot");
             if s.st != St::Running {
